@@ -587,9 +587,15 @@ impl Version {
                 .collect::<Vec<_>>();
 
             if level_idx == dest_level {
-                if let Some(run) = Run::new(affected_tables.clone()) {
-                    runs.insert(0, run);
-                }
+                // NOTE: The moved tables may stem from different (overlapping) runs,
+                // so they cannot be blindly packed into one run.
+                // Each table enters as its own run (keeping their relative order),
+                // optimize_runs then packs disjoint tables back together
+                let moved_runs = affected_tables
+                    .iter()
+                    .filter_map(|table| Run::new(vec![table.clone()]));
+
+                runs.splice(0..0, moved_runs);
             }
 
             let runs = optimize_runs(runs);
